@@ -487,6 +487,55 @@ def variant_shard(dtf, N):
                 elif any(abs(x - y) > 1e-5 * max(1, abs(y)) for x, y in zip(b, exp)):
                     tally.violation(f"select:int-storage:{iname}", case, f"select {b}, reference {exp}", exp, b)
                 tally.mark("nontrivial", ("int", float(dt), N, pushes, float(t), iname))
+    # ---- (3) select / insert after the record was resized in the middle of a run (push ... -> duration= -> select): the
+    # time index keeps addressing "k steps before present"; samples older than the old size read as the zero fill
+    for pushes in range(N, 2 * N):
+        for N2 in (N - 1, N + 1, N + 2):
+            if N2 < 1:
+                continue
+            mod = inferno.Module()
+            RecordTensor.create(mod, "rec", float(dt), max(float(dt) * (N - 1) - 1e-9, 0.0), torch.zeros(E), inclusive=True)
+            rt = mod.rec
+            hist = []
+            for k in range(pushes):
+                vals = [float(8 * (k + 1)), float(16 * (k + 1) + 4)]
+                rt.push(torch.tensor(vals))
+                hist.append(vals)
+            case0 = {"record": "resized mid-run", "dt": float(dt), "N": N, "pushes": pushes, "new_size": N2}
+            try:
+                rt.duration = max(float(dt) * (N2 - 1) - 1e-9, 0.0)
+            except Exception as ex:
+                tally.violation(f"variant:resize:exception:{type(ex).__name__}", case0, repr(ex))
+                continue
+            if rt.recordsz != N2:
+                continue  # the size formula itself is C13's
+            keep = min(N, N2)
+            M2 = [hist[-1 - k] if k < keep else [0.0, 0.0] for k in range(N2)]  # k steps before present
+            for k in range(N2):
+                for mode in ("scalar", "tensor"):
+                    tally.add("evaluations")
+                    t = float(dt * k)
+                    targ = t if mode == "scalar" else torch.full((E,), t)
+                    case = {**case0, "op": "select", "time": t, "mode": mode}
+                    try:
+                        got = rt.select(targ, fn.interp_previous, tolerance=0.0, offset=1).to(torch.float64).tolist()
+                    except Exception as ex:
+                        tally.violation(f"variant:resize:select:exception:{type(ex).__name__}", case, repr(ex))
+                        continue
+                    if got != M2[k]:
+                        tally.violation(f"select:{mode}:after-resize:{'grow' if N2 > N else 'shrink'}", case, f"select({t}) after the resize returned {got}, the "
+                                        f"observation {k} step(s) before present is {M2[k]}", M2[k], got)
+                    tally.mark("nontrivial", ("resized", float(dt), N, pushes, N2, k, mode))
+            if N2 >= 2:
+                tally.add("evaluations")
+                try:
+                    rt.insert(torch.tensor([1000.0, 1001.0]), float(dt), fn.extrap_neighbors, tolerance=0.0, offset=1, inplace=False)
+                    got = [rt.select(float(dt * k), fn.interp_previous, tolerance=0.0, offset=1).tolist() for k in range(N2)]
+                    exp = [([1000.0, 1001.0] if k == 1 else M2[k]) for k in range(N2)]
+                    if got != exp:
+                        tally.violation("insert:after-resize", {**case0, "op": "insert", "time": float(dt)}, f"after insert at dt the record reads {got}, expected {exp}", exp, got)
+                except Exception as ex:
+                    tally.violation(f"variant:resize:insert:exception:{type(ex).__name__}", case0, repr(ex))
     tally.sample({"part": "variants", "dt": float(dt), "N": N})
     return tally
 
